@@ -410,7 +410,7 @@ def parseRecv : String → Recv
   | "tref" => .typedRef | "tmut" => .typedMut | _ => .pinMut
 
 def parsePClass : String → PClass
-  | "own" => .owned | "ref" => .ref | "refref" => .refRef | "mut" => .mutRef | "imp" => .mutImpossible | "mutdyn" => .mutDyn | "mutst" => .mutStatic | "gt" => .genT | "gu" => .genU
+  | "own" => .owned | "ref" => .ref | "refref" => .refRef | "mut" => .mutRef | "imp" => .mutImpossible | "mutdyn" => .mutDyn | "mutst" => .mutStatic | "mutgu" => .mutGenU | "gt" => .genT | "gu" => .genU
   | c => if c.startsWith "impl" then .implInto ((c.drop 4).toString.toNat?.getD 0) else .slice
 
 def parseParams (s : String) : List Param :=
